@@ -27,7 +27,8 @@ class C13(TalCheck):
     prop = "C13"
     level = "fault_enumeration"
     gen_opts = {"on_error": 0.5, "max_sites": 24, "pipes": 0.2,
-                "prefixes": 0.15, "macros": 0.3, "i18n": 0.2, "code": 0.1}
+                "prefixes": 0.15, "macros": 0.3, "i18n": 0.2, "code": 0.1,
+                "markers": 0.3}
     plans_per_template = 45
 
     def is_nontrivial(self, plan, r, m) -> bool:
@@ -36,20 +37,33 @@ class C13(TalCheck):
 
     def oracle(self, case, src, occ, tmpl, plan, hcfg, r, m, cover) -> list:
         vs = self._judge(occ, r, m, cover)
-        if vs and m.get("guard_relevant"):
-            # Known finding F12: with a tal:omit-tag *expression* on the
-            # element the fallback never carries the element's tags, not
-            # even when the guard had come out false.  Everything that
-            # follows from the dropped tags (an emptied translation block
-            # is not translated, so a failing translation function is
-            # never called ...) is judged against the model variant that
-            # drops them; any deviation from *that* is reported as usual.
-            alt = run_model(tmpl, plan, hcfg, guard_tags=False)
-            vs_alt = self._judge(occ, r, alt, set())
-            if not vs_alt:
+        if not vs:
+            return vs
+        # Known findings F12 (with a tal:omit-tag *expression* on the
+        # element the fallback never carries the element's tags, not even
+        # when the guard had come out false) and F16 (local definitions of
+        # elements left by a handled exception are not restored).
+        # Everything that follows from them (an emptied translation block
+        # is not translated, so a failing translation function is never
+        # called; a leaked variable shows in later text ...) is judged
+        # against the model variant that behaves that way; only an
+        # observation that agrees with such a variant in *every* respect
+        # is filed under the finding, any other deviation is reported.
+        variants = []
+        if m.get("guard_relevant"):
+            variants.append(("fallback-tags-dropped-with-false-omit-guard",
+                             {"guard_tags": False}))
+        if m.get("scope_relevant"):
+            variants.append(("scope-not-restored-after-handled-failure",
+                             {"leaky_scope": True}))
+        if len(variants) == 2:
+            variants.append(("scope-not-restored-after-handled-failure",
+                             {"guard_tags": False, "leaky_scope": True}))
+        for sig, kw in variants:
+            alt = run_model(tmpl, plan, hcfg, **kw)
+            if not self._judge(occ, r, alt, set()):
                 return [{
-                    "kind": "output",
-                    "sig": "fallback-tags-dropped-with-false-omit-guard",
+                    "kind": "output", "sig": sig,
                     "detail": f"rendered {r['out']!r} / raised "
                               f"{r['raise'] and r['raise'][0]}\n expected "
                               f"{m['out']!r} / {m['raise'] and m['raise'][0]}"}]
